@@ -57,6 +57,18 @@ theorem LitRep.move {d : Lab} {v : Val F} (par : Option Nat) (h : LitRep pf (mkP
   | sym h1 h2 => exact .sym h1 h2
   | prop h => exact .prop (pn := mkPN d par none none) h
 
+theorem LitRep.moveR {d : Lab} {v : Val F} (par r : Option Nat) (h : LitRep pf (mkPN d none none none) v) :
+    LitRep pf (mkPN d par none r) v := by
+  cases h with
+  | unit h => exact .unit h
+  | tru h => exact .tru h
+  | fls h => exact .fls h
+  | num h1 h2 => exact .num h1 h2
+  | chars h1 h2 => exact .chars h1 h2
+  | bytes h1 h2 => exact .bytes h1 h2
+  | sym h1 h2 => exact .sym h1 h2
+  | prop h => exact .prop (pn := mkPN d par none r) h
+
 /-- the definition of the node at the root of an operand -/
 theorem root_def {tree : Array ParseNode} {s : Sk} {lo : Nat} {par : Option Nat} (h : Agree tree s lo par) (ho : okLab s.lab.1) :
     NotCond tree (lo + s.root) ∧ NotDef tree (lo + s.root) .commaList := by
